@@ -96,3 +96,5 @@ func ToRaw(v any) map[string]any {
 	_ = json.Unmarshal(b, &m)
 	return m
 }
+
+func jsonUnmarshal(b []byte, v any) error { return json.Unmarshal(b, v) }
